@@ -102,6 +102,12 @@ def stepC05 (c : CS) (l : Line) : CS :=
       else if l.nat "rc" ≠ 0 ∧ l.nat "batt_eq" ≠ 1 then
         mism c s!"SPEC[error-left-trace] EvictControl failing with rc={l.nat "rc"} (NV full after {l.nat "persisted"} objects) changed the observable state"
       else c
+  | "nvfull2" =>
+      let c := ev c
+      let c := branch c s!"nvfull2/rc={l.nat "rc"}"
+      if l.nat "rc" ≠ 0 ∧ (l.nat "img_eq" ≠ 1 ∨ l.nat "stores" ≠ 0 ∨ l.nat "batt_eq" ≠ 1) then
+        mism c s!"SPEC[error-left-trace] NV_DefineSpace of an orderly index refused with rc={l.nat "rc"} while NV is full left a trace (image equal={l.nat "img_eq"}, storage writes={l.nat "stores"}, battery equal={l.nat "batt_eq"})"
+      else c
   | "cancel" =>
       let c := ev c
       let k := l.str "k"
